@@ -11,6 +11,7 @@ B  vh c01: history executed through GenericWriter[T].Write / Writer.Write(any) /
 V  WriterMon.tla replays the logged calls through Writer.tla's operators and compares row groups,
    row order, bit-level row equality (tokens) and page partition
 """
+import random
 import time
 
 from lib import vf
@@ -43,7 +44,18 @@ def run(tier, seed):
     wd = vf.scratch()
     x = vf.model_check(wd, "MC_Writer.tla", "MC_Writer_quick.cfg" if quick else "MC_Writer_thorough.cfg", "X Writer")
     scenarios = generate(wd, quick, seed, 250 if quick else 5000)
-    vf.log(f"[C01] X: {x.distinct} states / {x.generated} transitions; scenarios {len(scenarios)}")
+    # the same histories at scale: every write k times larger, rows from the high-cardinality id space (large
+    # dictionaries that outgrow their pooled storage, dictionary limits, many pages per chunk)
+    rnd = random.Random(seed)
+    bulk = []
+    for s in rnd.sample(scenarios, min(len(scenarios), 6 if quick else 80)):
+        total = sum(o.get("n", 0) for o in s["ops"])
+        if total == 0:
+            continue
+        k = max(2, (9000 if quick else 14000) // total)
+        bulk.append(dict(s, id=len(scenarios) + len(bulk) + 1, scale=k, poison=len(bulk) % 2 == 0, src="bulk"))
+    scenarios += bulk
+    vf.log(f"[C01] X: {x.distinct} states / {x.generated} transitions; scenarios {len(scenarios)} ({len(bulk)} at scale)")
     out, verdict, vr, tp = PIPE.run(vh, wd, scenarios, seed)
     cnt = verdict["cnt"]
     if cnt["finals"] < cnt["traces"] // 2 and cnt["flagged"] == 0:
